@@ -790,6 +790,182 @@ func pathKey(info *types.Info, e ast.Expr) string {
 	return ""
 }
 
+// unsealedResult: every return of fn (one *LVal result) is either a parameter, returned only
+// over an edge that establishes `!param.sealed`, or a value fn allocated itself whose seal flag it
+// cleared (`cp.sealed = false`): the result is never a sealed value.
+func (c *Ctx) unsealedResult(fn *types.Func) bool {
+	if fn == nil {
+		return false
+	}
+	key := "unsealedResult:" + FuncName(fn)
+	if v, ok := c.memo[key]; ok {
+		return v.(bool)
+	}
+	c.memo[key] = false
+	fd := c.declOf[fn]
+	if fd == nil || fd.Body == nil {
+		return false
+	}
+	sig := fn.Type().(*types.Signature)
+	if sig.Results().Len() != 1 || !isLValPtr(c, sig.Results().At(0).Type()) {
+		return false
+	}
+	u := FuncUnit{fn, fd, c.pkgOf[fd]}
+	info := u.Pkg.TypesInfo
+	ha := newOwnAnalysis(c, u)
+	fc := c.cfgOf(u, nil)
+	sealedFld := c.LookupField("lisp.LVal.sealed")
+	ps := map[types.Object]bool{}
+	for _, p := range paramObjs(u) {
+		ps[p] = true
+	}
+	all, n := true, 0
+	for _, b := range fc.G.Blocks {
+		if !fc.Live(b) {
+			continue
+		}
+		for _, nd := range b.Nodes {
+			rs, ok := nd.(*ast.ReturnStmt)
+			if !ok || len(rs.Results) != 1 {
+				continue
+			}
+			n++
+			o := identObj(info, rs.Results[0])
+			switch {
+			case o != nil && ps[o]:
+				// behind !o.sealed
+				cut := fc.edgesImplying(func(at LitAtom) bool {
+					se, ok := ast.Unparen(at.E).(*ast.SelectorExpr)
+					return ok && !at.Positive && FieldOfSelector(info, se) == sealedFld && identObj(info, se.X) == o
+				})
+				if len(cut) == 0 || fc.reachableAvoiding(b, cut) {
+					all = false
+				}
+			case o != nil && ha.lvalKind(rs.Results[0], 0) == ownFresh:
+				cleared := false
+				ast.Inspect(fd.Body, func(m ast.Node) bool {
+					if as, ok := m.(*ast.AssignStmt); ok && len(as.Lhs) == len(as.Rhs) {
+						for i, l := range as.Lhs {
+							if se, ok := ast.Unparen(l).(*ast.SelectorExpr); ok && FieldOfSelector(info, se) == sealedFld && identObj(info, se.X) == o && isBoolConst(info, as.Rhs[i], false) {
+								cleared = true
+							}
+						}
+					}
+					return true
+				})
+				if !cleared {
+					all = false
+				}
+			default:
+				all = false
+			}
+		}
+	}
+	if all && n > 0 {
+		c.memo[key] = true
+		return true
+	}
+	return false
+}
+
+// sealedPredicate: fn is a one-line predicate that answers exactly `param.sealed` (or
+// param.IsSealed()) for its only parameter — a name given to the seal test.
+func (c *Ctx) sealedPredicate(fn *types.Func) bool {
+	if fn == nil {
+		return false
+	}
+	key := "sealedPredicate:" + FuncName(fn)
+	if v, ok := c.memo[key]; ok {
+		return v.(bool)
+	}
+	c.memo[key] = false
+	fd := c.declOf[fn]
+	if fd == nil || fd.Body == nil || len(fd.Body.List) != 1 {
+		return false
+	}
+	rs, ok := fd.Body.List[0].(*ast.ReturnStmt)
+	if !ok || len(rs.Results) != 1 {
+		return false
+	}
+	info := c.pkgOf[fd].TypesInfo
+	ps := paramObjs(FuncUnit{fn, fd, c.pkgOf[fd]})
+	if len(ps) != 1 {
+		return false
+	}
+	sealedFld := c.LookupField("lisp.LVal.sealed")
+	isSealedM := c.LookupMethod("lisp.LVal.IsSealed")
+	r := ast.Unparen(rs.Results[0])
+	if se, ok := r.(*ast.SelectorExpr); ok && FieldOfSelector(info, se) == sealedFld && identObj(info, se.X) == ps[0] {
+		c.memo[key] = true
+		return true
+	}
+	if ce, ok := r.(*ast.CallExpr); ok && originOf(Callee(info, ce)) == isSealedM {
+		if se, ok := ast.Unparen(ce.Fun).(*ast.SelectorExpr); ok && identObj(info, se.X) == ps[0] {
+			c.memo[key] = true
+			return true
+		}
+	}
+	return false
+}
+
+// sameTypeResult: every return of fn (one *LVal result) is its idx-th parameter itself or a
+// local that received a whole-struct copy of it (`*cp = *param`).
+func (c *Ctx) sameTypeResult(fn *types.Func) (int, bool) {
+	key := "sameTypeResult:" + FuncName(fn)
+	if v, ok := c.memo[key]; ok {
+		i := v.(int)
+		return i, i >= 0
+	}
+	c.memo[key] = -1
+	fd := c.declOf[fn]
+	if fd == nil || fd.Body == nil {
+		return -1, false
+	}
+	sig := fn.Type().(*types.Signature)
+	if sig.Results().Len() != 1 || !isLValPtr(c, sig.Results().At(0).Type()) {
+		return -1, false
+	}
+	info := c.pkgOf[fd].TypesInfo
+	ps := paramObjs(FuncUnit{fn, fd, c.pkgOf[fd]})
+	for idx, p := range ps {
+		if !isLValPtr(c, p.Type()) {
+			continue
+		}
+		copies := map[types.Object]bool{}
+		ast.Inspect(fd.Body, func(m ast.Node) bool {
+			if as, ok := m.(*ast.AssignStmt); ok && len(as.Lhs) == 1 && len(as.Rhs) == 1 {
+				l, lok := ast.Unparen(as.Lhs[0]).(*ast.StarExpr)
+				r, rok := ast.Unparen(as.Rhs[0]).(*ast.StarExpr)
+				if lok && rok && identObj(info, r.X) == p {
+					if o := identObj(info, l.X); o != nil {
+						copies[o] = true
+					}
+				}
+			}
+			return true
+		})
+		all, n := true, 0
+		ast.Inspect(fd.Body, func(m ast.Node) bool {
+			if _, isLit := m.(*ast.FuncLit); isLit {
+				return false
+			}
+			if rs, ok := m.(*ast.ReturnStmt); ok && len(rs.Results) == 1 {
+				n++
+				o := identObj(info, rs.Results[0])
+				if o == nil || (o != p && !copies[o]) {
+					all = false
+				}
+			}
+			return true
+		})
+		if all && n > 0 {
+			c.memo[key] = idx
+			return idx, true
+		}
+	}
+	return -1, false
+}
+
 // resolvedKey is pathKey after expanding local aliases: an identifier assigned
 // exactly once from a pure access path (x := v.Cells[0]) stands for that path.
 func (a *ownAnalysis) resolvedKey(e ast.Expr, depth int) string {
@@ -818,6 +994,20 @@ func (a *ownAnalysis) resolvedKey(e ast.Expr, depth int) string {
 			}
 			return true
 		})
+		// x := sameValueHelper(v): a helper that hands back its argument, or a struct copy of it
+		// (copy-on-write: `cp := &LVal{}; *cp = *v; …; return cp`), yields a value of the same type:
+		// what is known about v's Type is known about x's
+		if n == 1 && rhs != nil && len(p.Elems) == 0 {
+			if ce, ok := ast.Unparen(rhs).(*ast.CallExpr); ok {
+				if fn := originOf(Callee(a.info, ce)); fn != nil {
+					if idx, ok := a.c.sameTypeResult(fn); ok && idx < len(ce.Args) {
+						if k := a.resolvedKey(ce.Args[idx], depth+1); k != "" {
+							return k
+						}
+					}
+				}
+			}
+		}
 		if n == 1 && rhs != nil {
 			if _, isPath := PathOf(a.info, rhs); isPath {
 				if _, isCall := ast.Unparen(rhs).(*ast.CallExpr); !isCall {
@@ -857,6 +1047,12 @@ func (a *ownAnalysis) factsAt(fc *FCFG, n ast.Node, stack []ast.Node) *lvalFacts
 					if k := a.resolvedKey(se.X, 0); k != "" {
 						f.unsealed[k] = true
 					}
+				}
+			}
+			// a named seal test: sharesProgramStorage(x) is x.sealed
+			if !at.Positive && len(ce.Args) == 1 && a.c.sealedPredicate(originOf(Callee(a.info, ce))) {
+				if k := a.resolvedKey(ce.Args[0], 0); k != "" {
+					f.unsealed[k] = true
 				}
 			}
 			if originOf(Callee(a.info, ce)) == isVecF && at.Positive && len(ce.Args) == 1 {
@@ -1038,6 +1234,13 @@ func (c *Ctx) ownSites(u FuncUnit) []ownSite {
 		}
 		if a.cowIdiom(x, n) {
 			return true, "the path established that the value is not sealed (copy-on-write: `if x.sealed { x = <fresh copy> }` precedes the write)"
+		}
+		// the copy-on-write moved into a helper: x := sortTarget(v), where the helper hands back v only
+		// over an edge that shows it unsealed and otherwise a fresh copy whose seal it cleared
+		if d := soleDef(a.info, a.u.Decl.Body, x); d != nil {
+			if ce, ok := ast.Unparen(d).(*ast.CallExpr); ok && a.c.unsealedResult(originOf(Callee(a.info, ce))) {
+				return true, "the value comes from a copy-on-write helper: its argument when that is not sealed, a fresh unsealed copy otherwise"
+			}
 		}
 		return false, ""
 	}
@@ -1671,6 +1874,9 @@ func (a *ownAnalysis) cowIdiom(x ast.Expr, site ast.Node) bool {
 			case *ast.SelectorExpr:
 				condOK = FieldOfSelector(a.info, c) == sealedFld && identObj(a.info, c.X) == o
 			case *ast.CallExpr:
+				if len(c.Args) == 1 && a.c.sealedPredicate(originOf(Callee(a.info, c))) && identObj(a.info, c.Args[0]) == o {
+					condOK = true
+				}
 				if originOf(Callee(a.info, c)) == isSealedM {
 					if se, ok := ast.Unparen(c.Fun).(*ast.SelectorExpr); ok {
 						condOK = identObj(a.info, se.X) == o
